@@ -9,24 +9,6 @@ from ..core import main
 CSITE = "metrics.non_linear_correlations"
 DSITE = "metrics.comparable_metric"
 SCALE = 1000000
-PRED = []
-
-
-class Spy(BaseEstimator, RegressorMixin):
-    """Wraps a regressor and records what it predicts (one entry per (draw, i, j) in call order)."""
-
-    def __init__(self, base=None):
-        self.base = base
-
-    def fit(self, X, y):
-        from sklearn import clone
-        self.m_ = clone(self.base).fit(X, y)
-        return self
-
-    def predict(self, X):
-        v = self.m_.predict(X)
-        PRED.append(numpy.asarray(v, dtype=float).copy())
-        return v
 
 
 class ConstModel(BaseEstimator, RegressorMixin):
@@ -50,34 +32,46 @@ def corr_trace(tid, rng, seed, d, n, draws, frame, minmax, base, identity, const
     typed = data.astype(numpy.int64) if as_int else data.copy()
     arg = pandas.DataFrame(typed, columns=labels) if frame else typed
     snap = arg.copy()
-    splits = []
+    splits, states = [], []
     orig = C.train_test_split
 
     def rec(*a, **kw):
+        states.append(numpy.random.get_state())
         out = orig(*a, **kw)
         splits.append(out)
         return out
 
-    del PRED[:]
     C.train_test_split = rec
     numpy.random.seed(seed)
     try:
-        res = C.non_linear_correlations(arg, Spy(base), draws=draws, minmax=minmax)
+        res = C.non_linear_correlations(arg, base, draws=draws, minmax=minmax)
+        main_splits, main_states = list(splits), list(states)
+        # The value of one draw is whatever the code computes for it (the formula is not part of the property): it is
+        # read off the code itself, by running ONE draw from the generator state recorded at the start of draw k.  That
+        # is only an observation of draw k if the single run splits the table exactly as draw k did - checked below;
+        # otherwise (another way of drawing) the accumulation clauses are not evaluated for this trace.
+        per_draw, observable = [], len(main_splits) == draws
+        for k in range(draws if observable else 0):
+            del splits[:], states[:]
+            numpy.random.set_state(main_states[k])
+            rk = numpy.asarray(C.non_linear_correlations(arg, base, draws=1, minmax=False), dtype=float)
+            if len(splits) != 1 or not all(numpy.array_equal(a, b) for a, b in zip(splits[0], main_splits[k])):
+                observable = False
+                break
+            per_draw.append(rk)
     finally:
         C.train_test_split = orig
+    splits = main_splits
     mean, mini, maxi = (res if minmax else (res, None, None))
     ev = []
-    c = 0
     # a model can learn the identity on variable i only from a training half where i takes two values
-    learnable = [bool(all(numpy.ptp(splits[k][0][:, i]) > 0 for k in range(draws))) for i in range(d)]
-    for k in range(draws):
-        test = splits[k][1]
-        for i in range(d):
-            for j in range(d):
-                v = PRED[c]
-                co = max(1 - numpy.var(v - test[:, j].ravel()), 0) ** 0.5
-                ev.append(dict(a="acc", k=k, i=i, j=j, co=int(round(co * SCALE))))
-                c += 1
+    learnable = [bool(all(numpy.ptp(splits[k][0][:, i]) > 0 for k in range(len(splits)))) for i in range(d)]
+    if observable:
+        for k in range(draws):
+            for i in range(d):
+                for j in range(d):
+                    co = per_draw[k][i, j]
+                    ev.append(dict(a="acc", k=k, i=i, j=j, co=int(round(co * SCALE)) if numpy.isfinite(co) else -SCALE))
     enc = lambda M: [[int(round(float(v) * SCALE)) if numpy.isfinite(float(v)) else -SCALE for v in row] for row in numpy.asarray(M, dtype=float)]
     M = numpy.asarray(mean, dtype=float)
     # the same call on the other container type, same seed
@@ -93,7 +87,7 @@ def corr_trace(tid, rng, seed, d, n, draws, frame, minmax, base, identity, const
     ev.append(dict(a="result", rows=int(M.shape[0]), cols=int(M.shape[1]) if M.ndim == 2 else -1, mean=enc(M),
                    mini=enc(mini) if minmax else enc(M), maxi=enc(maxi) if minmax else enc(M),
                    labels_kept=kept, input_untouched=untouched, frame_eq_array=same, learnable=learnable))
-    return dict(id=tid, kind="corr", d=d, draws=draws, minmax=minmax, identity_model=identity, ev=ev, site=CSITE,
+    return dict(id=tid, kind="corr", d=d, draws=draws, minmax=minmax, identity_model=identity, observable=observable, ev=ev, site=CSITE,
                 sig="frame=%s minmax=%s const=%s collinear=%s%s" % (frame, minmax, const_col is not None, collinear, " int" if as_int else ""),
                 tr="None", inv="None", outcome=[], r2_equal=True)
 
@@ -138,7 +132,7 @@ def dispatch_trace(tid, trn, invn, rng):
         a3 = r2_score_comparable(y2, p2, tr=table[trn], inv_tr=table[invn])
         b3 = r2_score(fun["id" if trn == "None" else trn](y2), fun["id" if invn == "None" else invn](p2))
         r2_equal = bool(a == b and a2 == b2 and a3 == b3)
-    return dict(id=tid, kind="dispatch", d=1, draws=1, minmax=False, identity_model=False, ev=[], site=DSITE,
+    return dict(id=tid, kind="dispatch", d=1, draws=1, minmax=False, identity_model=False, observable=False, ev=[], site=DSITE,
                 sig="tr=%s inv_tr=%s" % (trn, invn), tr=trn, inv=invn, outcome=outcome, r2_equal=r2_equal)
 
 
@@ -199,11 +193,13 @@ def run(ctx):
     ctx.rule = ("MC: all accumulation histories for 2x2 cells, 3-4 draws, 3 values; the dispatch table is an ASSUME of the "
                 "module. C2S: seeded tables (2-5 columns incl. constant and collinear columns, DataFrame and array) x models "
                 "(identity-capable LinearRegression, constant model, no-intercept) x draws: train_test_split wrapped to capture "
-                "each draw, a spy model records predictions, one acc event per (draw, i, j) validated in order plus the "
-                "returned matrices; all 36 (tr, inv_tr) combinations of comparable_metric with a recording metric and "
+                "each draw and the generator state before it, the value of every (draw, i, j) read off a one-draw run of "
+                "the code from that state (so the formula of a draw is not demanded), one acc event each, validated in "
+                "order plus the returned matrices; all 36 (tr, inv_tr) combinations of comparable_metric with a recording metric and "
                 "r2_score_comparable against r2_score. non-trivial = >= 2 draws.")
-    ctx.assumptions += ["per-draw values are recomputed by the harness from the recorded predictions and test split, scaled to "
-                        "1e-6 units; the specification decides accumulation, extremes, range and ordering",
+    ctx.assumptions += ["per-draw values are the code's own (one-draw run from the recorded generator state, accepted only if it "
+                        "splits the table exactly like that draw), scaled to 1e-6 units; the specification decides accumulation, "
+                        "extremes, range and ordering",
                         "the numeric value of a correlation is not predicted by the model (DESIGN 5)"]
 
 
